@@ -361,6 +361,11 @@ func (c *Conn) Close() error {
 	c.blocked = false
 	c.closeT = c.net.Log(c.ID, KClose, 0, "")
 	c.cond.Broadcast()
+	// a closed connection needs no release at shutdown: drop it from the world's table so
+	// that long runs do not accumulate every connection ever made
+	c.net.mu.Lock()
+	delete(c.net.conns, c.ID)
+	c.net.mu.Unlock()
 	return nil
 }
 
@@ -560,7 +565,13 @@ func (c *Conn) TakePackets() (pkts [][]byte, partial int) {
 		pkts = append(pkts, append([]byte{}, x...))
 		c.outTaken += len(x)
 	}
-	return pkts, len(rest)
+	stray := len(rest)
+	// long-lived connections: do not keep bytes that were already handed out
+	if c.outTaken > 1<<20 {
+		c.out = append([]byte{}, c.out[c.outTaken:]...)
+		c.outTaken = 0
+	}
+	return pkts, stray
 }
 
 // Output returns everything the server wrote.
